@@ -395,7 +395,7 @@ impl Parse for ConversionsAttribute {
                     let _ = top_level_type.get_or_insert_with(|| ty.clone());
                     out.owned.tys.push_value(ty);
 
-                    if input.peek(token::Comma) {
+                    if !input.is_empty() {
                         out.owned.tys.push_punct(input.parse::<token::Comma>()?)
                     }
                 }
